@@ -83,7 +83,7 @@ def recount(segs, check_lx=False):
         d = []
         ex = True
         if sid == 'ISA':
-            ctl = el(e, 13)
+            ctl = el(e, 13) or ''        # an absent and an empty control number are the same value
             if ctl in isa_ids:
                 d.append(('isa', '025'))
             isa_ids.add(ctl)
@@ -91,7 +91,7 @@ def recount(segs, check_lx=False):
             n_gs = 0
             gs_ids = set()
         elif sid == 'GS':
-            ctl = el(e, 6)
+            ctl = el(e, 6) or ''
             if ctl in gs_ids:
                 d.append(('gs', '6'))
             gs_ids.add(ctl)
@@ -100,7 +100,7 @@ def recount(segs, check_lx=False):
             n_st = 0
             st_ids = set()
         elif sid == 'ST':
-            ctl = el(e, 2)
+            ctl = el(e, 2) or ''
             if ctl in st_ids:
                 d.append(('st', '23'))
             st_ids.add(ctl)
@@ -112,19 +112,19 @@ def recount(segs, check_lx=False):
             path = []
             hl_defined = True
         elif sid == 'SE':
-            if el(e, 2) != open_st:
+            if (el(e, 2) or '') != open_st:
                 d.append(('st', '3'))
             if toint(el(e, 1)) != n_seg + 1:
                 d.append(('st', '4'))
             open_st = None
         elif sid == 'GE':
-            if el(e, 2) != open_gs:
+            if (el(e, 2) or '') != open_gs:
                 d.append(('gs', '4'))
             if toint(el(e, 1)) != n_st:
                 d.append(('gs', '5'))
             open_gs = None
         elif sid == 'IEA':
-            if el(e, 2) != open_isa:
+            if (el(e, 2) or '') != open_isa:
                 d.append(('isa', '001'))
             if toint(el(e, 1)) != n_gs:
                 d.append(('isa', '021'))
